@@ -651,6 +651,11 @@ class client( object ):
             # Got an EtherNet/IP frame.  Return it (after parsing its payload.)
             self.engine		= None
             result		= self.data
+            if self.udp:
+                # A datagram carries one frame: whatever follows it dies with its datagram, and is
+                # never the beginning of the response that arrives in the next.
+                for _ in self.source:
+                    pass
 
         # Parse the EtherNet/IP encapsulated CIP frame, if any.  If the EtherNet/IP header .size was
         # zero, it's status probably indicates why.
